@@ -2,7 +2,7 @@
 From Coq Require Import String.
 From Coq Require Import NArith ZArith List Bool.
 From Coq.Strings Require Import Byte.
-From LV Require Import Lib.Bytes Lib.Decimal Model.C17 Proofs.C17_Int Proofs.C17_Bencode Proofs.C17_Msg Proofs.C17_Total.
+From LV Require Import Lib.Bytes Lib.Decimal Model.C17 Proofs.C17_Int Proofs.C17_Bencode Proofs.C17_Msg Proofs.C17_Total Proofs.C17_Request.
 Import ListNotations.
 Local Open Scope N_scope.
 
@@ -166,6 +166,52 @@ Theorem C17_non_dictionary_is_dropped :
 Proof. exact non_dictionary_dropped. Qed.
 Print Assumptions C17_non_dictionary_is_dropped.
 
+(* Decodes-but-invalid requests: for ALL byte strings, own ids, nesting bounds and whatever the abstract parts of
+   the node do (contact lookup, reply transport, serving of VALID requests, response/error handling): a datagram
+   that cannot be decoded, or that decodes to a request that is not a valid protocol request (unknown method,
+   wrong key / hash length, bad store arguments, our own id, ...), never changes the routing component (table,
+   queued additions/removals, ping queue) or the data store; at most one failure is recorded. *)
+Theorem C17_invalid_request_never_changes_routing :
+  forall (Routing Store Other Addr : Type)
+         (contact_of : node_state Routing Store Other Addr -> Addr -> rawmsg -> option Addr)
+         (note_request : Other -> Addr -> Other) (error_reply : Other -> Addr -> rawmsg -> Other)
+         (serve process_other : node_state Routing Store Other Addr -> Addr -> rawmsg -> node_state Routing Store Other Addr)
+         own fuel st sender data,
+  match decode_datagram fuel data with
+  | inr _ => True
+  | inl m => is_request m = true /\ request_valid own m = false
+  end ->
+  let st' := node_receive Routing Store Other Addr contact_of note_request error_reply serve process_other
+                          own fuel st sender data in
+  routing _ _ _ _ st' = routing _ _ _ _ st /\ store _ _ _ _ st' = store _ _ _ _ st
+  /\ (failures _ _ _ _ st' = failures _ _ _ _ st \/ exists c, failures _ _ _ _ st' = c :: failures _ _ _ _ st).
+Proof. exact not_a_valid_request_leaves_routing. Qed.
+Print Assumptions C17_invalid_request_never_changes_routing.
+
+(* what is (in)valid: unknown or non-bytes method, our own node id, a key that is not 48 bytes; and every request
+   the protocol's own constructors build for another node is valid *)
+Theorem C17_unknown_method_invalid : forall own rpc node method args,
+  bytes_eqb method s_ping = false -> bytes_eqb method s_store = false ->
+  bytes_eqb method s_findNode = false -> bytes_eqb method s_findValue = false ->
+  request_valid own (RReq rpc node (BStr method) args) = false.
+Proof. exact unknown_method_invalid. Qed.
+Print Assumptions C17_unknown_method_invalid.
+
+Theorem C17_own_id_invalid : forall own rpc method args, request_valid own (RReq rpc own method args) = false.
+Proof. exact own_id_invalid. Qed.
+Print Assumptions C17_own_id_invalid.
+
+Theorem C17_short_key_invalid : forall own rpc node key rest, blen key <> 48 ->
+  request_valid own (RReq rpc node (BStr s_findNode) (BList (BStr key :: rest ++ [pv_dict]))) = false
+  /\ request_valid own (RReq rpc node (BStr s_findValue) (BList (BStr key :: rest ++ [pv_dict]))) = false.
+Proof. exact short_key_invalid. Qed.
+Print Assumptions C17_short_key_invalid.
+
+Theorem C17_protocol_requests_valid : forall own rpc node r,
+  node <> own -> request_servable r -> request_valid own (raw_of_message (Request rpc node r)) = true.
+Proof. exact protocol_requests_valid. Qed.
+Print Assumptions C17_protocol_requests_valid.
+
 (* every ASCII text is a valid error text *)
 Theorem C17_ascii_is_utf8 : forall s, Forall (fun b => N_of_byte b <= 127) s -> utf8_valid s = true.
 Proof. exact ascii_utf8. Qed.
@@ -220,4 +266,9 @@ Example C17_ex_truncations_of_ping :
   let p := encode_message (Request rpc20 node48 Ping) in
   forallb (fun k => match decode_datagram 10 (firstn k p) with inr _ => true | inl _ => false end)
           (seq 0 (length p - 1)) = true.
+Proof. vm_compute. reflexivity. Qed.
+(* the seeded scenario: ping mutated to pinf *)
+Example C17_ex_pinf : request_valid node48 (RReq rpc20 rpc20 (BStr (lit "pinf")) (BList [pv_dict])) = false.
+Proof. vm_compute. reflexivity. Qed.
+Example C17_ex_ping_valid : request_valid node48 (RReq rpc20 rpc20 (BStr s_ping) (BList [pv_dict])) = true.
 Proof. vm_compute. reflexivity. Qed.
